@@ -914,7 +914,7 @@ func genWorld(r *Rand, cfg GenCfg) Plan {
 			ph = 0.5
 		}
 		if r.Chance(ph) {
-			ck.Hook = Pick(r, []string{"identity", "add", "remove", "replace", "fail"})
+			ck.Hook = Pick(r, []string{"identity", "add", "add-include", "remove", "replace", "fail"})
 			if len(args) > 0 && r.Chance(0.8) {
 				kv := args[r.Intn(len(args))]
 				ck.HookKey = kv.Key
@@ -932,7 +932,7 @@ func genWorld(r *Rand, cfg GenCfg) Plan {
 				ck.HookKey = "zz"
 				ck.HookVal = ptr(vInt(int64(r.Range(0, 5))))
 			}
-			if ck.Hook == "add" {
+			if ck.Hook == "add" || ck.Hook == "add-include" {
 				ck.HookKey = "extra"
 			}
 		}
